@@ -230,3 +230,13 @@ func init() {
 		return ex.sliceElems(sl)[0]
 	})
 }
+
+func init() {
+	// vxTerminates(k): a symbolic loop condition decided more than k times in one
+	// activation is a termination violation (replayed natively under a short timeout)
+	vxAPI["vxTerminates"] = func(ex *Exec, fr *Frame, fn *ssa.Function, args []Value, site ssa.Instruction) Value {
+		ex.unwind = argInt(ex, args[0])
+		ex.unwindIsViolation = true
+		return nil
+	}
+}
